@@ -641,6 +641,12 @@ OpReset ==
 
 OpPanicked ==
   /\ Chk("C01", "operation-panicked:" \o E.was, FALSE)
+  \* ... and for the property whose operation it was (no user code panics in these histories)
+  /\ Chk("C06", "round-trip-panicked", E.was # "serde")
+  /\ Chk("C10", "copy-panicked", E.was \notin {"clone", "clone_from"})
+  /\ Chk("C11", "deserialization-of-untrusted-input-panicked", E.was \notin {"deser_mut", "deser_struct"})
+  /\ Chk("C03", "query-panicked", E.was \notin {"query", "qmut"})
+  /\ Chk("C15", "resource-access-panicked", E.was \notin {"getmut", "viewres"})
   /\ issued' = [w \in Worlds |-> {}]
 
 (* a crash of the driver process inside a library call (abort, segfault): recorded by the
